@@ -1159,6 +1159,12 @@ func (f *Field) Range(name string, op pql.Token, predicate int64) (*Row, error) 
 		return nil, nil
 	}
 
+	// Every stored value matches: ask for everything from the lowest
+	// representable value up.
+	if bsig.rangeAll(op, predicate) {
+		op, predicate = pql.GTE, bsig.bitDepthMin()
+	}
+
 	baseValue, outOfRange := bsig.baseValue(op, predicate)
 	if outOfRange {
 		return NewRow(), nil
@@ -1537,7 +1543,9 @@ func (b *bsiGroup) baseValue(op pql.Token, value int64) (baseValue int64, outOfR
 	if op == pql.GT || op == pql.GTE {
 		if value > max {
 			return baseValue, true
-		} else if value > min {
+		} else if value < min {
+			baseValue = int64(min - b.Base)
+		} else {
 			baseValue = int64(value - b.Base)
 		}
 	} else if op == pql.LT || op == pql.LTE {
@@ -1558,6 +1566,33 @@ func (b *bsiGroup) baseValue(op pql.Token, value int64) (baseValue int64, outOfR
 }
 
 // baseValueBetween adjusts the min/max value to align with the range for Field.
+// rangeAll reports whether every value the group can currently hold
+// satisfies "stored op value": the predicate lies beyond the group's
+// declared bounds or beyond what the current bit depth can represent. The
+// base value is capped to the bit depth in that case, which loses the
+// distinction between a strict and an inclusive comparison at the cap, so
+// callers answer with all not-null columns instead.
+func (b *bsiGroup) rangeAll(op pql.Token, value int64) bool {
+	min, max := b.bitDepthMin(), b.bitDepthMax()
+	if b.Min > min {
+		min = b.Min
+	}
+	if b.Max < max {
+		max = b.Max
+	}
+	switch op {
+	case pql.LT:
+		return value > max
+	case pql.LTE:
+		return value >= max
+	case pql.GT:
+		return value < min
+	case pql.GTE:
+		return value <= min
+	}
+	return false
+}
+
 func (b *bsiGroup) baseValueBetween(lo, hi int64) (baseValueLo, baseValueHi int64, outOfRange bool) {
 	min, max := b.bitDepthMin(), b.bitDepthMax()
 	if hi < min || lo > max {
